@@ -130,7 +130,11 @@ macro_rules! api_program {
                     drop(d2);
                     log(format!("d dead {} {} {}", wd.upgrade().is_none(), wd.strong_count(), wd.weak_count()));
                     let wd2 = wd.clone();
-                    drop(wd);
+                    let dead_ptr = wd.as_ptr();
+                    let raw = wd.into_raw();
+                    let back = unsafe { Weak::from_raw(raw) };
+                    log(format!("d dead raw {} {} {} {}", raw == dead_ptr, back.ptr_eq(&wd2), back.upgrade().is_none(), back.as_ptr() == wd2.as_ptr()));
+                    drop(back);
                     log(format!("d dead clone {} {}", wd2.strong_count(), wd2.weak_count()));
                 }
                 let mut out = String::new();
